@@ -8,8 +8,8 @@ record what these computed —
   * `_identifier`: the joined identifier text; `_names`: the returned names;
   * `_parse_field_type(type_, name)`: the returned name and bit width; pointer depth and array nesting are read off the RESULTING type
     (peeled down to the very type object that was passed in); the count texts are the strings the handler handed to `Expression(...)`
-    (the module-level name `parser.Expression` is rebound to a recording subclass while the probe runs), an array without
-    `num_entries` is the empty count;
+    (the module-level name `parser.Expression` is rebound to a recording subclass while the probe runs), compared without the
+    white space around them; an array without `num_entries` is the empty count;
   * `_parse_field`: the resulting `Field` (name, bits; None name = anonymous member);
   * `_struct`: the resulting type (`Union` or not, `__name__` / `__anonymous__`), the members recorded above, the declared names; the
     `struct tag name;` member form is recognised by the `cs.resolve(tag)` call the handler makes itself;
@@ -56,6 +56,9 @@ EDGE_TEXTS = [
     "typedef uint8 A, B;", "struct S { uint8 a, b; };", "struct S { x; };", "typedef ;", "typedef x;", "typedef *x;", "typedef", "typedef uint8",
     "typedef uint8 x", "typedef uint8 x:3;", "typedef uint8 x[2], y;", "typedef uint8 x[][2];", "typedef uint8 x[2][];", "struct S { uint8 x[][3]; };",
     "struct S { uint8 x[]; uint8 y[ ]; uint8 z[2][3][4]; uint8 w[a][b + 1]; uint8 v[2] [3]; };", "struct S { uint8 x [2]; };",
+    "struct S { uint8 a[ ]; };", "struct S { uint8 a[\t ]; uint8 b; };", "struct S { uint8 a[ 2 ]; uint8 b[\t2\t][ 3 ]; };", "struct S { uint8 n; uint8 a[ n & 3 ]; };",
+    "struct S { uint8 a[2][ ]; };", "struct S { uint8 a[ ][2]; };", "struct S { uint8 a[ EOF ]; };", "struct S { uint8 a[EOF]; };", "typedef uint8 A[ ];",
+    "typedef uint8 A[ 4 ]; typedef A B;", "struct S { uint8 a[\u00a0]; };", "struct S { uint8 a[ \x0c ][\x0b]; };", "struct S { char *a[ ]; uint16 b[  0x2  ]; };",
     "struct S { uint8 x : 3 [2]; };", "struct S { uint8 x:3[2]; uint8 y : 12 ; uint8 z:007; };", "struct S { uint8 x[2]:3; };",
     "struct S { uint8 x[a;b]; };", "struct S { uint8 x[a]b]; uint8 y[[2]]; };", "struct S { uint8 x[2\n]; };", "struct S { uint8 x[2]\n; };",
     "struct S { struct { uint8 a; }; union { uint8 b; uint16 c; } u; struct T t; struct T *pt; struct T { uint8 q; } tt[2]; };",
@@ -112,6 +115,35 @@ def char_mutant(rnd, t: str) -> str:
         else:
             t = t[:i] + t[i + rnd.randint(1, 8):]
     return t
+
+
+PADS = ["", " ", " ", "  ", "\t", " \t", "/**/", " /* n */ "]
+# (baseline, mutant): the same definition with blanks inside array brackets (hand-written: also the to-end-of-stream array)
+BRACKET_PAIRS = [
+    ("struct B { uint8 n; uint8 a[EOF]; };", "struct B { uint8 n; uint8 a[ EOF ]; };"),
+    ("struct B { uint8 n; uint8 a[EOF]; };", "struct B { uint8 n; uint8 a[\tEOF  ]; };"),
+    ("struct B { uint8 a[]; uint8 t; };", "struct B { uint8 a[ ]; uint8 t; };"),
+    ("struct B { uint8 a[]; uint8 t; };", "struct B { uint8 a[\t \t]; uint8 t; };"),
+    ("struct B { uint8 a[2][]; };", "struct B { uint8 a[ 2 ][ ]; };"),
+    ("struct B { uint8 n; uint16 a[n & 3]; char s[]; };", "struct B { uint8 n; uint16 a[ n & 3 ]; char s[  ]; };"),
+    ("struct B { uint8 a[2][3]; wchar w[]; };", "struct B { uint8 a[\t2 ][ 3\t]; wchar w[/**/ ]; };"),
+    ("typedef uint8 A[]; struct B { A x; uint8 y[0x2]; };", "typedef uint8 A[ ]; struct B { A x; uint8 y[ 0x2 ]; };"),
+]
+
+
+def pad_brackets(rnd, text: str):
+    """put a pad (blanks, tabs, a comment without newline) behind every `[` and in front of every `]` of a bracket pair that holds neither
+    `;` nor a newline -> (text, features)"""
+    feats = set()
+
+    def sub(m):
+        a, b = rnd.choice(PADS), rnd.choice(PADS)
+        inner = m.group(1)
+        if a or b:
+            feats.add("empty-count" if not inner.strip() else "member-count" if re.search(r"[A-Za-z_]", inner) and "0x" not in inner else "constant-count")
+        return "[" + a + inner + b + "]"
+
+    return re.sub(r"\[([^\[\];\n]*)\]", sub, text), sorted(feats)
 
 
 def live_table(dc) -> list:
@@ -255,7 +287,9 @@ def extract(dc, text: str):
             dims = []
             t = rt
             while t is not type_ and isinstance(t, type) and issubclass(t, BaseArray):
-                dims.append("" if t.num_entries is None else (texts.pop() if texts else "<missing>"))
+                # canonical form of a dimension: the count text without the white space around it (the handler hands the raw text to
+                # Expression, whose tokenizer skips blanks; a blank-only count is the null-terminated dimension)
+                dims.append("" if t.num_entries is None else (texts.pop().strip() if texts else "<missing>"))
                 t = t.type
             ptr = 0
             while t is not type_ and isinstance(t, type) and issubclass(t, dc.Pointer):
